@@ -50,6 +50,7 @@ structure DecSt where
   r : R
   invalid : Bool := false
   s4len : Int := 0           -- `s4.len`: bits accounted for so far
+  early : Bool := false      -- `return dts` from inside the loop: Section 1 is not copied to the dataset
 deriving Repr
 
 inductive SubsetEnd
@@ -102,6 +103,7 @@ def decodeSubsetLoop (T : Tables) (edition : Nat) (s4max : Nat) :
 structure DecodeOut where
   subsets : List (List Node)
   invalid : Bool
+  early : Bool := false        -- the decoder returned before copying Section 1 (`bufr_contains_tables` sees defaults)
 deriving Repr
 
 /-- the `for (j…)` loop of the uncompressed decoder -/
@@ -115,7 +117,7 @@ def decodeUncompressed (T : Tables) (edition : Nat) (enforce : Enforce) (fuel : 
     | .ok (st1, nodes, fin) =>
       let filled := mkvalAll nodes
       match fin with
-      | .tooLong => .ok (st1, (filled :: acc).reverse)
+      | .tooLong => .ok ({ st1 with early := true }, (filled :: acc).reverse)
       | .shortRead =>
         let keep := lenConst ∨ from_ ≤ 0 ∨ (from_ ≤ (j : Int) + 1 ∧ (j : Int) + 1 ≤ to)
         .ok (st1, (if keep then filled :: acc else acc).reverse)
@@ -287,6 +289,7 @@ structure CompSt where
   dones : List (List Node)      -- reversed, one per kept subset
   todos : List (List Node)
   pendingDelayed : Bool := false
+  early : Bool := false
 
 /-- the lock-step `while (node)` loop of the compressed decoder -/
 def decodeCompressedLoop (T : Tables) (edition : Nat) (s4max : Nat) (g : Range) :
@@ -347,7 +350,7 @@ def decodeCompressedLoop (T : Tables) (edition : Nat) (s4max : Nat) (g : Range) 
                         | _ => .error .null
                     | [] => .error .null
                 match (List.zip st.dones (List.zip col3 tails)).foldl step (.ok ([], [], false)) with
-                | .error .null => .ok { st with r := r2, invalid := true, ddos := ddos2,
+                | .error .null => .ok { st with r := r2, invalid := true, early := true, ddos := ddos2,
                                                 dones := List.zipWith (fun n d => n :: d) col3 st.dones, todos := tails.map (fun _ => []) }
                 | .error e => .error e
                 | .ok (ds, ts, inv) =>
@@ -385,7 +388,7 @@ def decodeData (T : Tables) (fuel : Nat) (t : Template) (enforce : Enforce) (nsu
       match decodeUncompressed T t.edition enforce fuel s4max bsq nbitsSeq lenConst from_ to n1 0
               { r := r1, invalid := err } [] with
       | .error e => .error e
-      | .ok (st, subs) => .ok (some { subsets := subs, invalid := st.invalid })
+      | .ok (st, subs) => .ok (some { subsets := subs, invalid := st.invalid, early := st.early })
     else
       let g : Range := { nsub := nsub, from_ := from_, to := to }
       let n1 := g.count
@@ -396,6 +399,6 @@ def decodeData (T : Tables) (fuel : Nat) (t : Template) (enforce : Enforce) (nsu
       | .error e => .error e
       | .ok st =>
         let subs := List.zipWith (fun d t => mkvalAll (d.reverse ++ t)) st.dones st.todos
-        .ok (some { subsets := subs, invalid := st.invalid })
+        .ok (some { subsets := subs, invalid := st.invalid, early := st.early })
 
 end Bufr
